@@ -1,35 +1,459 @@
-"""Structured strings (DESIGN 2.3).  Filled in incrementally; concrete strings never get here."""
+"""Structured strings (DESIGN 2.3).
+
+An XStr is a sequence of *segments* (guard, piece):
+    guard  True or a z3 Bool  -- the piece is part of the string iff the guard holds
+    piece  a non-empty concrete str, or an Atom (an unknown string described by a character class,
+           optionally with provenance such as "this is str(n)").
+Concrete strings never get here: they stay Python str and are constant-folded through CPython.
+
+What is decided structurally (no string solver): concatenation, f-strings, join, len, iteration over
+guarded characters, split on a separator that only occurs as whole segments, comparison with a
+literal when the structure decides it, and regular-expression matching (pyvc.xregex).  Anything the
+structure does not decide raises Undetermined, which the driver reports as *undecided* -- never as
+proved and never as a violation.
+"""
 from __future__ import annotations
 
-from .values import EngineError
+import enum
+import itertools
+
+import z3
+
+from . import values as V
+from .values import (BT, T, EngineError, GList, SBool, SInt, SList, Sym, b_and, b_implies, b_not,
+                     b_or, mk_bool, mk_int)
 
 
-class XStr:
+class Undetermined(EngineError):
+    """The structured-string reasoning cannot decide this operation for every instantiation."""
+
+
+_atom_ids = itertools.count(1)
+
+
+class Atom:
+    """Unknown string.  only: frozenset of allowed characters, or None; excl: frozenset of excluded
+    characters (used when only is None).  minlen: 0 or 1.  int_of: SInt/int n when the atom is
+    str(n) (so int(atom) == n).  t: z3 String constant standing for the text."""
+
+    def __init__(self, name, only=None, excl=frozenset(), minlen=0, int_of=None, note=''):
+        self.name = name
+        self.only = frozenset(only) if only is not None else None
+        self.excl = frozenset(excl)
+        self.minlen = minlen
+        self.int_of = int_of
+        self.note = note
+        self.t = z3.String(name)
+
+    def may_contain(self, ch):
+        if self.only is not None:
+            return ch in self.only
+        return ch not in self.excl
+
+    def __repr__(self):
+        return f'Atom({self.name})'
+
+
+def piece_may_contain(piece, ch):
+    if isinstance(piece, str):
+        return ch in piece
+    return piece.may_contain(ch)
+
+
+class XStr(Sym):
+    __slots__ = ('segs',)
+
+    def __init__(self, segs):
+        out = []
+        for g, p in segs:
+            if g is False or (isinstance(p, str) and p == ''):
+                continue
+            if isinstance(g, SBool):
+                g = g.t
+            if not isinstance(g, bool):
+                g = z3.simplify(g)
+                if z3.is_true(g):
+                    g = True
+                elif z3.is_false(g):
+                    continue
+            if out and g is True and out[-1][0] is True and isinstance(p, str) and \
+                    isinstance(out[-1][1], str):
+                out[-1] = (True, out[-1][1] + p)
+            else:
+                out.append((g, p))
+        self.segs = out
+
+    # -- construction ---------------------------------------------------------------------------
     @staticmethod
     def lift(s):
-        raise EngineError('structured strings not available yet')
+        if isinstance(s, XStr):
+            return s
+        if isinstance(s, str):
+            return XStr([(True, s)] if s else [])
+        raise EngineError(f'not a string: {s!r}')
+
+    @staticmethod
+    def atom(name, **kw):
+        return XStr([(True, Atom(name, **kw))])
+
+    def simplify(self):
+        """A plain str when nothing symbolic is left."""
+        if all(g is True and isinstance(p, str) for g, p in self.segs):
+            return ''.join(p for _, p in self.segs)
+        return self
+
+    def __repr__(self):
+        return 'XStr(' + ' '.join((p if isinstance(p, str) else f'<{p.name}>') +
+                                  ('' if g is True else '?') for g, p in self.segs) + ')'
+
+    # -- basic queries --------------------------------------------------------------------------
+    def guarded_by(self, cond):
+        return XStr([(cond if g is True else z3.And(cond, g), p) for g, p in self.segs])
+
+    def length(self):
+        n = 0
+        ts = []
+        for g, p in self.segs:
+            ln = len(p) if isinstance(p, str) else z3.Length(p.t)
+            if g is True and isinstance(ln, int):
+                n += ln
+            else:
+                ts.append(z3.If(g, ln, 0) if g is not True else ln)
+        return mk_int(z3.Sum(ts) + n) if ts else n
+
+    def nonempty(self):
+        out = []
+        for g, p in self.segs:
+            if isinstance(p, str) or p.minlen >= 1:
+                out.append(g)
+            else:
+                out.append(b_and(g, mk_bool(z3.Length(p.t) > 0)))
+        return b_or(*out)
+
+    def iter_chars(self):
+        out = []
+        for g, p in self.segs:
+            if not isinstance(p, str):
+                raise Undetermined(f'iteration over the characters of {p!r}')
+            for ch in p:
+                out.append((mk_bool(g) if not isinstance(g, bool) else g, ch))
+        return out
+
+    def term(self):
+        """SMT String term of the whole text (fallback reasoning only)."""
+        parts = []
+        for g, p in self.segs:
+            t = z3.StringVal(p) if isinstance(p, str) else p.t
+            parts.append(t if g is True else z3.If(g, t, z3.StringVal('')))
+        if not parts:
+            return z3.StringVal('')
+        return z3.Concat(*parts) if len(parts) > 1 else parts[0]
+
+    def concretize(self, m):
+        out = []
+        for g, p in self.segs:
+            if g is not True and not z3.is_true(m.eval(g, model_completion=True)):
+                continue
+            if isinstance(p, str):
+                out.append(p)
+            else:
+                v = m.eval(p.t, model_completion=True)
+                try:
+                    s = v.as_string()
+                except Exception:
+                    s = ''
+                if p.int_of is not None:
+                    try:
+                        s = str(m.eval(T(p.int_of), model_completion=True).as_long())
+                    except Exception:
+                        pass
+                out.append(_sanitize(p, s))
+        return ''.join(out)
+
+    # -- slicing by segment positions (used by the regex matcher) --------------------------------
+    def slice_pos(self, a, b):
+        """Sub-string between positions a=(i,off) and b=(j,off)."""
+        (i, oi), (j, oj) = a, b
+        segs = []
+        for k in range(i, min(j + 1, len(self.segs))):
+            g, p = self.segs[k]
+            lo = oi if k == i else 0
+            hi = oj if k == j else None
+            if isinstance(p, str):
+                q = p[lo:hi]
+                if q:
+                    segs.append((g, q))
+            else:
+                if k == j and oj == 0:
+                    continue
+                if lo != 0 or hi not in (None,):
+                    raise Undetermined('slice inside an unknown string')
+                segs.append((g, p))
+        return XStr(segs).simplify()
+
+    # -- Python-level operations ----------------------------------------------------------------
+    def getitem(self, it, idx):
+        if isinstance(idx, int) and idx >= 0:
+            # the idx-th character is determined only if everything before it is unconditional
+            k = idx
+            for g, p in self.segs:
+                if g is not True or not isinstance(p, str):
+                    break
+                if k < len(p):
+                    return p[k]
+                k -= len(p)
+        raise Undetermined(f'{self!r}[{idx!r}]')
+
+    def getslice(self, it, lo, hi, st):
+        # s[lo:] with lo inside the unconditional literal prefix
+        if st is None and hi is None and isinstance(lo, int) and lo >= 0 and self.segs:
+            g, p = self.segs[0]
+            if g is True and isinstance(p, str) and lo <= len(p):
+                return self.slice_pos((0, lo), (len(self.segs), 0))
+        raise Undetermined(f'slice {lo}:{hi} of {self!r}')
+
+    def enum_lookup(self, it, cls):
+        raise Undetermined(f'{cls.__name__}[{self!r}]')
+
+    def method(self, it, name, args, kwargs):
+        from .interp import PyRaise
+        if name == 'split':
+            return str_split(it, self, *args, **kwargs)
+        if name in ('upper', 'lower'):
+            segs = []
+            for g, p in self.segs:
+                if isinstance(p, str):
+                    segs.append((g, getattr(p, name)()))
+                elif p.only is not None and all(getattr(c, name)() == c for c in p.only):
+                    segs.append((g, p))
+                else:
+                    raise Undetermined(f'{name}() of {p!r}')
+            return XStr(segs).simplify()
+        if name == 'join':
+            return str_join(it, self, args[0])
+        if name in ('startswith', 'endswith'):
+            raise Undetermined(f'{name} on {self!r}')
+        if name == 'encode':
+            return XBytes(self)
+        if name == 'format':
+            raise Undetermined('str.format on a structured string')
+        raise Undetermined(f'str.{name} on {self!r}')
 
 
-def str_eq(it, a, b):
-    raise EngineError('symbolic string equality')
+class XBytes(Sym):
+    """bytes value that is the UTF-8 encoding of a structured string (opaque: only decode())."""
+    __slots__ = ('s',)
+
+    def __init__(self, s):
+        self.s = s
 
 
-def str_contains(it, cont, x):
-    raise EngineError('symbolic string containment')
+def _sanitize(atom, s):
+    out = ''.join(ch for ch in s if atom.may_contain(ch))
+    if atom.minlen and not out:
+        cands = sorted(atom.only) if atom.only else ['x']
+        out = cands[0]
+    return out
+
+
+# ------------------------------------------------------------------------------------------------
+# functions used by the interpreter
 
 
 def str_concat(a, b):
-    raise EngineError('symbolic string concatenation')
+    a, b = XStr.lift(a), XStr.lift(b)
+    return XStr(a.segs + b.segs).simplify()
+
+
+def str_merge(c, a, b):
+    """The string a if c else b."""
+    a, b = XStr.lift(a), XStr.lift(b)
+    return XStr(a.guarded_by(c).segs + b.guarded_by(z3.Not(c)).segs).simplify()
+
+
+def str_join(it, sep, xs):
+    """sep.join(xs) for a list / guarded list of strings."""
+    sep = XStr.lift(sep)
+    items = it.iterate_guarded(xs)
+    segs = []
+    earlier = False      # some earlier item is present
+    for g, x in items:
+        x = XStr.lift(it.to_str(x) if not isinstance(x, (str, XStr)) else x)
+        gz = True if g is True else BT(g)
+        if earlier is not False:
+            sg = b_and(g, earlier)
+            if sg is not False:
+                segs.extend(sep.guarded_by(BT(sg)).segs if sg is not True else sep.segs)
+        segs.extend(x.segs if g is True else x.guarded_by(gz).segs)
+        earlier = b_or(earlier, g)
+    return XStr(segs).simplify()
 
 
 def str_of_int(it, v):
-    # finite-domain ints are concretised (complete enumeration by solver models)
-    return str(it.ctx.decide_by_model(v.t))
+    """str(n) for a symbolic int: enumerated when the path condition leaves few values, otherwise
+    an atom with provenance (int(str(n)) == n is the assumed law, DESIGN 2.12)."""
+    try:
+        return str(it.ctx.decide_by_model(v.t, cap=16))
+    except EngineError:
+        pass
+    name = it.ctx.fresh_name('strofint')
+    a = Atom(name, only='-0123456789', minlen=1, int_of=v, note='str(int)')
+    return XStr([(True, a)])
 
 
 def str_to_int(it, x):
-    raise EngineError('int() of a symbolic string')
+    from .interp import PyRaise
+    x = XStr.lift(x)
+    if len(x.segs) == 1 and x.segs[0][0] is True and not isinstance(x.segs[0][1], str):
+        a = x.segs[0][1]
+        if a.int_of is not None:
+            return a.int_of
+        if a.only is not None and a.only <= frozenset('0123456789') and a.minlen >= 1:
+            # digits only: a natural number, otherwise unconstrained
+            n = it.ctx.fresh_int('int_of_' + a.name)
+            it.ctx.assume_type(n >= 0)
+            a.int_of = SInt(n)
+            return a.int_of
+    raise Undetermined(f'int({x!r})')
+
+
+def _definitely_differs(x, lit):
+    """Structure alone shows x != lit for every instantiation."""
+    fixed = ''.join(p for g, p in x.segs if g is True and isinstance(p, str))
+    # every unconditional literal character must occur in lit, in order
+    k = 0
+    for ch in fixed:
+        k = lit.find(ch, k)
+        if k < 0:
+            return True
+        k += 1
+    if len(fixed) > len(lit):
+        return True
+    for g, p in x.segs:
+        if g is True and not isinstance(p, str) and p.minlen >= 1 and \
+                not any(p.may_contain(ch) for ch in lit):
+            return True
+    return False
+
+
+def str_eq(it, a, b):
+    a, b = XStr.lift(a), XStr.lift(b)
+    sa, sb = a.simplify(), b.simplify()
+    if isinstance(sa, str) and isinstance(sb, str):
+        return sa == sb
+    if isinstance(sb, str) or isinstance(sa, str):
+        x, lit = (a, sb) if isinstance(sb, str) else (b, sa)
+        if _definitely_differs(x, lit):
+            return False
+        # x consists of guarded literal pieces only: equality is a Boolean combination of guards
+        if all(isinstance(p, str) for _, p in x.segs):
+            return _eq_guarded_literal(x, lit)
+        if len(x.segs) == 1 and x.segs[0][0] is True:
+            atom = x.segs[0][1]
+            if not all(atom.may_contain(ch) for ch in lit) or (atom.minlen and not lit):
+                return False
+            return mk_bool(atom.t == z3.StringVal(lit))
+        return mk_bool(x.term() == z3.StringVal(lit))
+    # both structured: identical structure decides it, otherwise fall back to the SMT terms
+    if len(a.segs) == len(b.segs) and all(
+            (g1 is g2 or (not isinstance(g1, bool) and not isinstance(g2, bool) and g1.eq(g2))) and
+            (p1 == p2 if isinstance(p1, str) and isinstance(p2, str) else p1 is p2)
+            for (g1, p1), (g2, p2) in zip(a.segs, b.segs)):
+        return True
+    return mk_bool(a.term() == b.term())
+
+
+def _eq_guarded_literal(x, lit):
+    """x (guarded literal pieces) == lit as a Bool over the guards: dynamic programming over
+    (segment index, position in lit)."""
+    segs = x.segs
+    memo = {}
+
+    def go(i, k):
+        key = (i, k)
+        if key in memo:
+            return memo[key]
+        if i == len(segs):
+            r = (k == len(lit))
+        else:
+            g, p = segs[i]
+            take = go(i + 1, k + len(p)) if lit.startswith(p, k) else False
+            if g is True:
+                r = take
+            else:
+                skip = go(i + 1, k)
+                r = b_or(b_and(mk_bool(g), take), b_and(b_not(mk_bool(g)), skip))
+        memo[key] = r
+        return r
+    return go(0, 0)
+
+
+def str_contains(it, cont, x):
+    cont, x = XStr.lift(cont), XStr.lift(x)
+    sx = x.simplify()
+    if isinstance(sx, str):
+        if not sx:
+            return True
+        if not any(piece_may_contain(p, sx[0]) for _, p in cont.segs):
+            return False
+        fixed = [p for g, p in cont.segs if g is True and isinstance(p, str)]
+        if any(sx in p for p in fixed):
+            return True
+        if not any(all(piece_may_contain(p, ch) for ch in sx) or
+                   any(piece_may_contain(p, ch) for ch in sx) for _, p in cont.segs):
+            return False
+    raise Undetermined(f'{x!r} in {cont!r}')
+
+
+def str_split(it, s, sep=None, maxsplit=-1):
+    """s.split(sep) where sep occurs in s only as whole (possibly guarded) segments obeying the
+    join discipline: a guarded separator is present iff the token to its right is non-empty and
+    some token to its left is non-empty.  The discipline is *checked* against the path condition
+    (it is what str.join produces); otherwise Undetermined."""
+    if sep is None or not isinstance(sep, str) or maxsplit != -1:
+        raise Undetermined('split() without a concrete separator')
+    tokens = [[]]
+    seps = []
+    for g, p in s.segs:
+        if isinstance(p, str) and p == sep:
+            seps.append(g)
+            tokens.append([])
+            continue
+        if isinstance(p, str) and sep in p:
+            if g is True:
+                parts = p.split(sep)
+                tokens[-1].append((g, parts[0]))
+                for q in parts[1:]:
+                    seps.append(True)
+                    tokens.append([(g, q)] if q else [])
+                continue
+            raise Undetermined('separator inside a guarded piece')
+        if not isinstance(p, str) and p.may_contain(sep[0]):
+            raise Undetermined(f'separator may occur inside {p!r}')
+        tokens[-1].append((g, p))
+    xs = [XStr(t) for t in tokens]
+    ne = [x.nonempty() for x in xs]
+    if all(g is True for g in seps):
+        return SList([x.simplify() for x in xs])
+    # join discipline
+    for k, g in enumerate(seps):
+        want = b_and(ne[k + 1], b_or(*ne[:k + 1]))
+        same = it.eq_bool(g if isinstance(g, bool) else g, want if isinstance(want, bool) else BT(want)) \
+            if not (isinstance(g, bool) and isinstance(want, bool)) else (g == want)
+        if same is True:
+            continue
+        r, _ = it.ctx._check(z3.Not(BT(same)), it.ctx.FEAS_TIMEOUT_MS)
+        if r != z3.unsat:
+            raise Undetermined('split: the separators do not follow the join discipline')
+    items = [(n, x.simplify()) for n, x in zip(ne, xs) if n is not False]
+    items.append((b_not(b_or(*ne)), ''))
+    return GList([(g, x) for g, x in items if g is not False])
 
 
 def str_method_native(it, owner, name, args, kwargs):
+    """Method of a concrete str called with symbolic arguments."""
+    if name == 'join':
+        return str_join(it, owner, args[0])
+    if name == 'format':
+        raise Undetermined('str.format with symbolic arguments')
     raise EngineError(f'str.{name} with symbolic arguments')
